@@ -1,4 +1,5 @@
 import DateutilVerif.Properties.C02
+import DateutilVerif.Properties.ParserGen
 #print axioms C02.convertyear_window
 #print axioms C02.convertyear_century
 #print axioms C02.adjustAmpm_table
@@ -15,3 +16,9 @@ import DateutilVerif.Properties.C02
 #print axioms C02.offDescr_carries_offset
 #print axioms C02.offDescr_local_iff
 #print axioms C02.parse_render_compact_fraction
+#print axioms ParserGen.gen_eq_model_ymd_append_str
+#print axioms ParserGen.gen_eq_model_ymd_append_decimal
+#print axioms ParserGen.gen_eq_model_ymd_append_int
+#print axioms ParserGen.gen_eq_model_ymd_could_be_day
+#print axioms ParserGen.gen_eq_model_ymd_resolve_from_stridxs
+#print axioms ParserGen.gen_eq_model_ymd_resolve_ymd
